@@ -19,6 +19,8 @@ IEEE and in Q, *including* exact ties d == eps), rates are dyadic (k/16) so
 `int(rr*(N-1))` is exact.  A separate implementation-only stream uses generic
 floats with a decision margin.
 """
+import contextlib
+import io
 import math
 from fractions import Fraction as Fr
 
@@ -27,6 +29,7 @@ import numpy as np
 from . import common
 
 METRICS = ("supremum", "manhattan", "euclidean")
+SETTER_CRP = {"t": "set_fixed_threshold", "r": "set_fixed_recurrence_rate"}
 
 
 # --------------------------------------------------------------------------
@@ -835,6 +838,41 @@ def run(ctx):
         if CR.tolist() != exp:
             ctx.fail(dict(sig, issue="entries"), "cross recurrence matrix differs from the definition",
                      dict(replay, expected=enc_bmat(exp), observed=enc_bmat(CR)))
+        # history on the same object: a trajectory is replaced through its property setter and
+        # the plot re-thresholded (the distance matrices are cached per embedding state)
+        if len(sx) >= 1 and len(sy) >= 1 and rng.random() < 0.6:
+            dimc = len(sx[0])
+            which = rng.choice("xy")
+            new = gen_series(rng, gen_len(rng, quick), dimc)
+            kind2 = rng.choice("tr")
+            spec2 = (kind2, gen_eps(rng) if kind2 == "t" else gen_rate(rng))
+            ctx.count(f"CrossRecurrencePlot:replace-{which}-trajectory:{kind2}")
+            rep2 = dict(replay, replaced=which, new_trajectory=new.tolist(),
+                        setter=SETTER_CRP[kind2], setter_arg=float(spec2[1]))
+            X2, Y2 = (new, rows_to_array(sy)) if which == "x" else (rows_to_array(sx), new)
+            try:
+                obj.distance_matrix(metric)          # make sure the old matrix is in the cache
+                setattr(obj, which + "_embedded", caller_array(rng, new))
+                getattr(obj, SETTER_CRP[kind2])(float(spec2[1]))
+                CR2 = np.asarray(obj.recurrence_matrix())
+                reqs.append(f"crp {metric} - {enc_spec(spec2)} {enc_vmat(X2)} {enc_vmat(Y2)}")
+                impl.append(f"N={int(obj.N)} M={int(obj.M)} R={enc_bmat(CR2)}")
+                s2x, s2y = q_states(X2, None), q_states(Y2, None)
+                exp2 = (q_matrix(metric, s2x, s2y, spec2[1]) if kind2 == "t"
+                        else q_rate_matrix(q_dists(metric, s2x, s2y), spec2[1])[0])
+                if CR2.shape != (len(s2x), len(s2y)) or CR2.tolist() != exp2:
+                    ctx.fail(dict(sig, issue="entries", step="trajectory-replaced"),
+                             f"CrossRecurrencePlot: after replacing {which}_embedded and "
+                             f"{SETTER_CRP[kind2]} the matrix is not the thresholded cross distance "
+                             "matrix of the current trajectories",
+                             dict(rep2, expected=enc_bmat(exp2), observed=enc_bmat(CR2)))
+                CR = CR2
+            except Exception as ex:  # noqa
+                ctx.fail(dict(sig, issue="raises", step="trajectory-replaced",
+                              error=type(ex).__name__),
+                         f"CrossRecurrencePlot: replacing {which}_embedded + {SETTER_CRP[kind2]} raised "
+                         f"{type(ex).__name__}: {ex}", rep2)
+                continue
         if CR.size:
             try:
                 rr = obj.recurrence_rate()
@@ -1516,6 +1554,409 @@ def run(ctx):
                               metric=metric),
                          "CrossRecurrencePlot.distance_matrix differs from the metric", replay)
 
+
+    # ------------------------------------------------------------------
+    # 6c. round 3: EVERY public (non-setter) method of every class on every construction
+    #     (N = 1..3 and larger, lag, embedding, missing values, sparse_rqa): each call must
+    #     return or raise the error documented for that situation; the observed outcome is
+    #     compared with the model's `outcome` (Model/RecurrenceRqa.lean); recurrence rate /
+    #     cross recurrence rate / recurrence probability against the model with the generated
+    #     denominators; twins against the row-equality definition (also on the asymmetric
+    #     local-rate matrices); sequential RQA against the non-sparse object and the model
+    # ------------------------------------------------------------------
+    NEED = {}
+    for nm_ in ("recurrence_matrix", "balance", "cross_recurrence_rate",
+                "inter_system_recurrence_matrix", "internal_recurrence_rates",
+                "cross_global_clustering_xy", "cross_global_clustering_yx",
+                "cross_transitivity_xy", "cross_transitivity_yx",
+                "transitivity_dim_single_scale", "local_clustering_dim_single_scale"):
+        NEED[nm_] = "matrix"
+    NEED["recurrence_rate"] = "rate"
+    NEED["recurrence_probability"] = "diagOf"
+    for nm_ in ("diagline_dist", "vertline_dist", "resample_diagline_dist", "resample_vertline_dist",
+                "max_diaglength", "determinism", "average_diaglength", "diag_entropy",
+                "max_vertlength", "laminarity", "average_vertlength", "trapping_time",
+                "vert_entropy", "rqa_summary"):
+        NEED[nm_] = "blackLines"
+    for nm_ in ("white_vertline_dist", "max_white_vertlength", "average_white_vertlength",
+                "mean_recurrence_time", "white_vert_entropy"):
+        NEED[nm_] = "whiteLines"
+    NEED["twins"] = NEED["twin_surrogates"] = "twins"
+    NEED["permutation_entropy"] = NEED["complexity_entropy"] = "ordinal"
+    for nm_ in ("distance_matrix", "manhattan_distance_matrix", "euclidean_distance_matrix",
+                "supremum_distance_matrix"):
+        NEED[nm_] = "distance"
+    ARGS = {"distance_matrix": [("supremum",), ("euclidean",), ("manhattan",)],
+            "resample_diagline_dist": [(5,)], "resample_vertline_dist": [(5,)],
+            "recurrence_probability": [(0,), (1,)], "twins": [(), (0,), (1,)],
+            "twin_surrogates": [(), (2, 0)], "determinism": [(), (1,), (3,)],
+            "laminarity": [(), (1,)], "average_white_vertlength": [(), (2,)]}
+
+    def public_methods(klass):
+        """every public callable defined by the timeseries classes of the MRO that is not a
+        setter, static or class method (introspection: a new method is covered unasked)"""
+        out = []
+        for k in klass.__mro__:
+            if not k.__module__.startswith("pyunicorn.timeseries"):
+                continue
+            for nm, v in vars(k).items():
+                if nm.startswith("_") or nm.startswith("set_") or nm in out:
+                    continue
+                if isinstance(v, (staticmethod, classmethod, property)) or not callable(v):
+                    continue
+                out.append(nm)
+        return out
+
+    def documented(tag, sparse, sup_thr, embedded, nm):
+        """the documented errors, by method name (independent of the model's `Need` table):
+        returns the set of exception names a call may raise in this situation"""
+        allowed = set()
+        if nm in ("permutation_entropy", "complexity_entropy") and not (tag in ("rp", "rn") and embedded):
+            allowed.add("ValueError")           # "only works for one-dimensional embedded time series"
+        if tag == "crp" and (nm.endswith("line_dist") or "diag" in nm or "vert" in nm
+                             or nm in ("determinism", "laminarity", "trapping_time", "rqa_summary",
+                                       "mean_recurrence_time", "twins", "twin_surrogates")):
+            allowed.add("NotImplementedError")  # "not yet available for cross-recurrence plots"
+        if sparse and NEED.get(nm) in ("whiteLines", "twins", "diagOf"):
+            allowed.add("NotImplementedError")  # the matrix is not stored
+        if sparse and not sup_thr and NEED.get(nm) in ("rate", "blackLines"):
+            allowed.add("NotImplementedError")  # "only available for fixed threshold and the supremum metric"
+        return allowed
+
+    seen_rqa = set()
+
+    def enumerate_methods(obj, tag, klass, sparse, sup_thr, embedded, replay, R=None, check_values=True):
+        for nm in public_methods(klass):
+            for a in ARGS.get(nm, [()]):
+                try:
+                    with np.errstate(all="ignore"), contextlib.redirect_stdout(io.StringIO()):
+                        val = getattr(obj, nm)(*a)
+                    got = "ok"
+                except Exception as ex:  # noqa
+                    got = "raise:" + type(ex).__name__
+                    val = None
+                    if type(ex).__name__ not in documented(tag, sparse, sup_thr, embedded, nm):
+                        ctx.fail(dict(kind="rqa-applicable", cls=tag, method=nm, sparse=sparse,
+                                      error=type(ex).__name__),
+                                 f"{klass.__name__}.{nm}{a} raised an undocumented "
+                                 f"{type(ex).__name__}: {ex}", dict(replay, method=nm, args=list(a)))
+                ctx.count(f"rqa-applicable:{tag}" + (":sparse" if sparse else ""))
+                need = NEED.get(nm)
+                key = (tag, sparse, sup_thr, embedded, need, got)
+                if need is not None and key not in seen_rqa:
+                    seen_rqa.add(key)
+                    reqs.append(f"rqa {tag} {int(sparse)} {int(sup_thr)} {int(embedded)} {need}")
+                    impl.append(got)
+                if need is None and got != "ok":
+                    ctx.fail(dict(kind="rqa-applicable", cls=tag, method=nm, sparse=sparse,
+                                  error="unclassified"),
+                             f"{klass.__name__}.{nm} (not classified by the check) raised {got}",
+                             dict(replay, method=nm))
+                if got != "ok" or R is None or not check_values:
+                    continue
+                Rm = np.asarray(R)
+                # values with generated denominators
+                if nm == "recurrence_rate" and tag != "crp" and Rm.shape[0] <= 12:
+                    reqs.append(f"rr {int(obj.N)} {enc_bmat(Rm)}")
+                    impl.append(enc_fr(Fr(int(Rm.sum()), int(obj.N) ** 2))
+                                if float(val) == int(Rm.sum()) / int(obj.N) ** 2 else f"float:{val}")
+                if nm == "cross_recurrence_rate" and tag == "crp" and Rm.size and Rm.shape[0] <= 12:
+                    reqs.append(f"crr {int(obj.N)} {int(obj.M)} {enc_bmat(Rm)}")
+                    impl.append(enc_fr(Fr(int(Rm.sum()), int(obj.N) * int(obj.M)))
+                                if float(val) == int(Rm.sum()) / (int(obj.N) * int(obj.M))
+                                else f"float:{val}")
+                if nm == "recurrence_probability" and tag not in ("crp",) and Rm.shape[0] <= 12:
+                    lag_ = a[0]
+                    reqs.append(f"rprob {int(obj.N)} {lag_} {enc_bmat(Rm)}")
+                    dsum = int(np.diag(Rm, lag_).sum())
+                    den = int(obj.N) - lag_
+                    if den == 0:
+                        impl.append("undefined" if not np.isfinite(val) else f"float:{val}")
+                    else:
+                        impl.append(enc_fr(Fr(dsum, den)) if float(val) == dsum / den else f"float:{val}")
+                        if float(val) != dsum / den:
+                            ctx.fail(dict(kind="rqa-applicable", cls=tag, method=nm, error="value"),
+                                     f"{klass.__name__}.recurrence_probability({lag_}) = {val}: the "
+                                     f"{lag_}-th diagonal has {dsum} recurrences out of {den}",
+                                     dict(replay, lag=lag_, expected=dsum / den, observed=float(val)))
+                if nm == "twins" and tag != "crp":
+                    md = a[0] if a else 7
+                    Nn = Rm.shape[0]
+                    exp_t = [set() for _ in range(Nn)]
+                    for j in range(Nn):
+                        for k in range(max(j - md, 0)):
+                            if int(Rm[j].sum()) != 1 and np.array_equal(Rm[j], Rm[k]):
+                                exp_t[j].add(k)
+                                exp_t[k].add(j)
+                    got_t = [set(int(v) for v in t) for t in list(val)[:Nn]]
+                    if got_t != exp_t:
+                        ctx.fail(dict(kind="rqa-applicable", cls=tag, method="twins", error="value",
+                                      symmetric=bool(np.array_equal(Rm, Rm.T))),
+                                 f"{klass.__name__}.twins({md}) is not the list of states with identical "
+                                 "rows of the recurrence matrix", dict(replay, min_dist=md,
+                                                                       expected=str(exp_t), observed=str(got_t)))
+
+    SPECS5 = (("t", "threshold"), ("s", "threshold_std"), ("r", "recurrence_rate"),
+              ("l", "local_recurrence_rate"), ("a", "adaptive_neighborhood_size"))
+    sizes = [1, 2, 3, 1, 2, 3, 4, 6] if quick else [1, 2, 3] * 6 + [4, 5, 6, 8, 11]
+    for n in sizes:
+        for metric in METRICS:
+            emb = rng.choice([None, None, (1, 1), (2, 1), (2, 2), (3, 1)])
+            n_raw = n + ((emb[0] - 1) * emb[1] if emb else 0)       # n state vectors
+            d = 1 if emb else rng.choice([1, 2])
+            ekw = dict(dim=emb[0], tau=emb[1]) if emb else {}
+            for kind, kwname in SPECS5:
+                arg = {"t": float(gen_eps(rng)), "s": rng.choice([0.5, 1.0, 2.0]),
+                       "r": float(gen_rate(rng)), "l": float(gen_rate(rng)),
+                       "a": rng.randrange(0, max(n, 1))}[kind]
+                for mv in (False, True):
+                    if kind == "a" and mv:
+                        continue
+                    ts = gen_series(rng, n_raw, d, nan_p=0.25 if mv else 0, span=rng.choice([2, 4]))
+                    has_nan = bool(np.isnan(ts).any())
+                    replay = dict(cls="RecurrencePlot", time_series=ts.tolist(),
+                                  kwargs=dict(metric=metric, missing_values=mv, **{kwname: arg}, **ekw))
+                    # plain
+                    try:
+                        with np.errstate(all="ignore"):
+                            o = RecurrencePlot(caller_array(rng, ts), metric=metric, missing_values=mv,
+                                               silence_level=3, **{kwname: arg}, **ekw)
+                    except Exception as ex:  # noqa
+                        ctx.fail(dict(kind="construct", cls="RecurrencePlot", spec=kind,
+                                      error=type(ex).__name__, missing_values=mv),
+                                 f"RecurrencePlot({kwname}={arg}) raised {type(ex).__name__}: {ex} "
+                                 f"for {n} state vectors", replay)
+                        continue
+                    Rm = np.asarray(o.recurrence_matrix())
+                    ctx.case(("rqa-all", "rp", metric, emb, kind, arg, mv, ts.tobytes().hex()),
+                             nontrivial(Rm))
+                    enumerate_methods(o, "rp", RecurrencePlot, False, False, emb is not None, replay,
+                                      R=Rm, check_values=not (mv and has_nan))
+                    if not (mv and has_nan):
+                        check_rqa(ctx, o, Rm, "RecurrencePlot", dict(spec=kind, missing=False,
+                                                                    stream="all-methods"), replay)
+                    # sequential RQA
+                    sup_thr = metric == "supremum" and kind == "t"
+                    try:
+                        with np.errstate(all="ignore"):
+                            osp = RecurrencePlot(caller_array(rng, ts), metric=metric, missing_values=mv,
+                                                 sparse_rqa=True, silence_level=3, **{kwname: arg}, **ekw)
+                    except Exception as ex:  # noqa
+                        ctx.fail(dict(kind="construct", cls="RecurrencePlot", spec=kind, sparse=True,
+                                      error=type(ex).__name__),
+                                 f"RecurrencePlot(sparse_rqa=True, {kwname}={arg}) raised "
+                                 f"{type(ex).__name__}: {ex}", replay)
+                        continue
+                    rep_s = dict(replay, sparse_rqa=True)
+                    enumerate_methods(osp, "rp", RecurrencePlot, True, sup_thr, emb is not None, rep_s)
+                    if sup_thr:
+                        ctx.count("sparse_rqa:threshold:supremum" + (":mv" if mv and has_nan else ""))
+                        with np.errstate(all="ignore"):
+                            pairs = [(nm_, getattr(osp, nm_)(), getattr(o, nm_)())
+                                     for nm_ in ("vertline_dist", "diagline_dist", "max_diaglength",
+                                                 "max_vertlength", "determinism", "laminarity",
+                                                 "average_diaglength", "trapping_time", "diag_entropy",
+                                                 "vert_entropy")]
+                            if not (mv and has_nan):
+                                pairs.append(("recurrence_rate", osp.recurrence_rate(), o.recurrence_rate()))
+                        for nm_, gs, gp in pairs:
+                            if not np.allclose(np.asarray(gs, dtype=float), np.asarray(gp, dtype=float),
+                                               rtol=1e-12, atol=1e-12, equal_nan=True):
+                                ctx.fail(dict(kind="sparse", method=nm_, missing=bool(mv and has_nan)),
+                                         f"RecurrencePlot(sparse_rqa=True).{nm_}() = {gs} differs from the "
+                                         f"object that stores the matrix ({gp})", dict(rep_s, method=nm_))
+                                break
+                        reqs.append(f"sparse {int(mv)} {enc_emb(emb)} {enc_fr(Fr(arg))} {enc_vmat(ts)}")
+                        impl.append(f"N={int(osp.N)} V={','.join(str(int(v)) for v in osp.vertline_dist()) or '-'} "
+                                    f"D={','.join(str(int(v) // 2) for v in osp.diagline_dist()) or '-'}")
+                    # RecurrenceNetwork (at least two nodes)
+                    nodes = n - (int(np.isnan(np.asarray(o.embedding)).any(axis=1).sum()) if mv else 0)
+                    if nodes >= 2:
+                        try:
+                            with np.errstate(all="ignore"):
+                                on = RecurrenceNetwork(caller_array(rng, ts), metric=metric,
+                                                       missing_values=mv, silence_level=3,
+                                                       **{kwname: arg}, **ekw)
+                            enumerate_methods(on, "rn", RecurrenceNetwork, False, False, emb is not None,
+                                              dict(replay, cls="RecurrenceNetwork"),
+                                              R=np.asarray(on.recurrence_matrix()),
+                                              check_values=not (mv and has_nan))
+                        except Exception as ex:  # noqa
+                            ctx.fail(dict(kind="construct", cls="RecurrenceNetwork", spec=kind,
+                                          error=type(ex).__name__, missing_values=mv, nodes=">=2"),
+                                     f"RecurrenceNetwork({kwname}={arg}) raised {type(ex).__name__}: {ex}",
+                                     dict(replay, cls="RecurrenceNetwork"))
+            # cross / inter-system / joint
+            for kind, kwname in (("t", "threshold"), ("r", "recurrence_rate")):
+                m_raw = rng.choice([1, 2, 3, 5]) + ((emb[0] - 1) * emb[1] if emb else 0)
+                x, y = gen_series(rng, n_raw, d), gen_series(rng, m_raw, d)
+                arg = float(gen_eps(rng)) if kind == "t" else float(gen_rate(rng))
+                replay = dict(cls="CrossRecurrencePlot", x=x.tolist(), y=y.tolist(),
+                              kwargs=dict(metric=metric, **{kwname: arg}, **ekw))
+                try:
+                    oc = CrossRecurrencePlot(caller_array(rng, x), caller_array(rng, y), metric=metric,
+                                             silence_level=3, **{kwname: arg}, **ekw)
+                    enumerate_methods(oc, "crp", CrossRecurrencePlot, False, False, False, replay,
+                                      R=np.asarray(oc.recurrence_matrix()))
+                except Exception as ex:  # noqa
+                    ctx.fail(dict(kind="construct", cls="CrossRecurrencePlot", spec=kind,
+                                  error=type(ex).__name__),
+                             f"CrossRecurrencePlot raised {type(ex).__name__}: {ex}", replay)
+                ekw3 = dict(dim=emb[0], tau=(emb[1], emb[1])) if emb else {}
+                replay = dict(cls="InterSystemRecurrenceNetwork", x=x.tolist(), y=y.tolist(),
+                              kwargs=dict(metric=metric, **{kwname: (arg,) * 3}, **ekw3))
+                try:
+                    with np.errstate(all="ignore"):
+                        oi = InterSystemRecurrenceNetwork(caller_array(rng, x), caller_array(rng, y),
+                                                          metric=metric, silence_level=3,
+                                                          **{kwname: (arg,) * 3}, **ekw3)
+                        enumerate_methods(oi, "isrn", InterSystemRecurrenceNetwork, False, False, False,
+                                          replay)
+                except Exception as ex:  # noqa
+                    ctx.fail(dict(kind="construct", cls="InterSystemRecurrenceNetwork", spec=kind,
+                                  error=type(ex).__name__),
+                             f"InterSystemRecurrenceNetwork raised {type(ex).__name__}: {ex}", replay)
+            for kind, kwname in (("t", "threshold"), ("s", "threshold_std"), ("r", "recurrence_rate")):
+                for lag in (0, 1, -1, 2, -2):
+                    if abs(lag) >= n:
+                        continue
+                    dy = 1 if emb else rng.choice([1, 2])
+                    x, y = gen_series(rng, n_raw, d), gen_series(rng, n_raw, dy)
+                    arg = (float(gen_eps(rng)) if kind == "t" else 1.0 if kind == "s"
+                           else float(gen_rate(rng)))
+                    ekw2 = dict(dim=(emb[0], emb[0]), tau=(emb[1], emb[1])) if emb else {}
+                    kwj = dict(metric=(metric, rng.choice(METRICS)), lag=lag, **{kwname: (arg, arg)}, **ekw2)
+                    replay = dict(cls="JointRecurrencePlot", x=x.tolist(), y=y.tolist(), kwargs=kwj)
+                    try:
+                        with np.errstate(all="ignore"):
+                            oj = JointRecurrencePlot(caller_array(rng, x), caller_array(rng, y),
+                                                     silence_level=3, **kwj)
+                        JRm = np.asarray(oj.recurrence_matrix())
+                        enumerate_methods(oj, "jrp", JointRecurrencePlot, False, False, False, replay, R=JRm)
+                        check_rqa(ctx, oj, JRm, "JointRecurrencePlot",
+                                  dict(lag_nonzero=lag != 0, stream="all-methods"), replay)
+                        if n - abs(lag) >= 2:
+                            with np.errstate(all="ignore"):
+                                ojn = JointRecurrenceNetwork(caller_array(rng, x), caller_array(rng, y),
+                                                             silence_level=3, **kwj)
+                            enumerate_methods(ojn, "jrn", JointRecurrenceNetwork, False, False, False,
+                                              dict(replay, cls="JointRecurrenceNetwork"),
+                                              R=np.asarray(ojn.recurrence_matrix()))
+                    except Exception as ex:  # noqa
+                        ctx.fail(dict(kind="construct", cls="JointRecurrencePlot", spec=kind,
+                                      lag_nonzero=lag != 0, error=type(ex).__name__),
+                                 f"Joint recurrence plot / network (lag={lag}) raised "
+                                 f"{type(ex).__name__}: {ex}", replay)
+
+    # sequential RQA, dedicated stream: supremum metric + fixed threshold, all sizes, embedding,
+    # multi-column series, missing values, thresholds with exact ties
+    for c in range(15 * scale):
+        n = gen_len(rng, quick)
+        emb = gen_emb(rng, 0.4)
+        if emb is not None and n - (emb[0] - 1) * emb[1] < 1:
+            continue
+        d = 1 if emb else rng.choice([1, 2, 3])
+        mv = rng.random() < 0.4
+        ts = gen_series(rng, n, d, nan_p=0.2 if mv else 0, span=rng.choice([2, 4, 6]))
+        eps = gen_eps(rng)
+        ekw = dict(dim=emb[0], tau=emb[1]) if emb else {}
+        rep_s = dict(cls="RecurrencePlot", time_series=ts.tolist(),
+                     kwargs=dict(metric="supremum", threshold=float(eps), missing_values=mv,
+                                 sparse_rqa=True, **ekw))
+        has_nan = bool(np.isnan(ts).any())
+        ctx.count("sparse_rqa:stream" + (":mv" if mv and has_nan else "") + (":emb" if emb else ""))
+        try:
+            with np.errstate(all="ignore"):
+                o = RecurrencePlot(caller_array(rng, ts), metric="supremum", threshold=float(eps),
+                                   missing_values=mv, silence_level=3, **ekw)
+                osp = RecurrencePlot(caller_array(rng, ts), metric="supremum", threshold=float(eps),
+                                     missing_values=mv, sparse_rqa=True, silence_level=3, **ekw)
+                names = ["vertline_dist", "diagline_dist", "max_diaglength", "max_vertlength",
+                         "determinism", "laminarity", "average_diaglength", "trapping_time",
+                         "diag_entropy", "vert_entropy"]
+                if not (mv and has_nan):
+                    # with missing values the sequential rate is built from the lines that do not
+                    # touch a missing state ("experimental"); nothing is demanded of it
+                    names += ["recurrence_rate", "rqa_summary"]
+                for nm_ in names:
+                    gs, gp = getattr(osp, nm_)(), getattr(o, nm_)()
+                    if isinstance(gs, dict):
+                        gs, gp = [gs[k] for k in sorted(gs)], [gp[k] for k in sorted(gp)]
+                    if not np.allclose(np.asarray(gs, dtype=float), np.asarray(gp, dtype=float),
+                                       rtol=1e-12, atol=1e-12, equal_nan=True):
+                        ctx.fail(dict(kind="sparse", method=nm_, missing=bool(mv and has_nan)),
+                                 f"RecurrencePlot(sparse_rqa=True).{nm_}() = {gs} differs from the "
+                                 f"object that stores the matrix ({gp})", dict(rep_s, method=nm_))
+                        break
+            reqs.append(f"sparse {int(mv)} {enc_emb(emb)} {enc_fr(eps)} {enc_vmat(ts)}")
+            impl.append(f"N={int(osp.N)} V={','.join(str(int(v)) for v in osp.vertline_dist()) or '-'} "
+                        f"D={','.join(str(int(v) // 2) for v in osp.diagline_dist()) or '-'}")
+            ctx.case(("sparse", emb, mv, float(eps), ts.tobytes().hex()),
+                     nontrivial(np.asarray(o.recurrence_matrix())))
+        except Exception as ex:  # noqa
+            ctx.fail(dict(kind="sparse", error=type(ex).__name__, missing=bool(mv and has_nan)),
+                     f"sequential RQA raised {type(ex).__name__}: {ex}", rep_s)
+
+    # joint plots of series with unequal raw lengths: the documented ValueError (generated guard)
+    for c in range(3 * scale):
+        n, m = rng.randrange(1, 8), rng.randrange(1, 8)
+        if n == m:
+            m += 1
+        x, y = gen_series(rng, n, 1), gen_series(rng, m, 1)
+        lag = rng.choice([0, 1, -1])
+        reqs.append(f"jrp supremum supremum {lag} - - t:1 t:1 {enc_vmat(x)} {enc_vmat(y)}")
+        ctx.count("JointRecurrencePlot:unequal raw lengths")
+        try:
+            JointRecurrencePlot(x, y, threshold=(1.0, 1.0), lag=lag, silence_level=3)
+            impl.append("no-error")
+            ctx.fail(dict(kind="construct", cls="JointRecurrencePlot", issue="unequal-lengths-accepted"),
+                     "JointRecurrencePlot accepted series of different lengths",
+                     dict(x=x.tolist(), y=y.tolist(), lag=lag))
+        except Exception as ex:  # noqa
+            impl.append(exc_name(ex))
+
+    # sizes beyond the int8 range of the matrix entries (row sums > 127, products of int8
+    # blocks, counts in the tens of thousands): implementation against the definition
+    for c in range(2 if quick else 8):
+        n = rng.choice([130, 140, 200] if not quick else [130, 140])
+        metric = rng.choice(METRICS)
+        x, y = gen_series(rng, n, 1, span=2), gen_series(rng, n, 1, span=2)
+        eps = Fr(rng.choice([5, 6, 9]), 4)
+        ctx.count("large-N (row sums beyond int8)")
+        sx, sy = q_states(x, None), q_states(y, None)
+        Rx = np.array(q_matrix(metric, sx, sx, eps))
+        Ry = np.array(q_matrix(metric, sy, sy, eps))
+        lag = rng.choice([0, 3, -5])
+        ox, oy = (0, lag) if lag >= 0 else (-lag, 0)
+        side = n - abs(lag)
+        EJ = Rx[ox:ox + side, ox:ox + side] * Ry[oy:oy + side, oy:oy + side]
+        replay = dict(cls="large", x=x.tolist(), y=y.tolist(), metric=metric, threshold=float(eps), lag=lag)
+        try:
+            o = RecurrencePlot(caller_array(rng, x), metric=metric, threshold=float(eps), silence_level=3)
+            oj = JointRecurrencePlot(caller_array(rng, x), caller_array(rng, y), metric=(metric, metric),
+                                     threshold=(float(eps), float(eps)), lag=lag, silence_level=3)
+            oc = CrossRecurrencePlot(caller_array(rng, x), caller_array(rng, y[:3]), metric=metric,
+                                     threshold=float(eps), silence_level=3)
+            ok = (np.array_equal(np.asarray(o.recurrence_matrix()), Rx)
+                  and abs(o.recurrence_rate() - Rx.sum() / n ** 2) < 1e-12
+                  and np.array_equal(np.asarray(oj.recurrence_matrix()), EJ) and int(oj.N) == side
+                  and abs(oj.recurrence_rate() - EJ.sum() / side ** 2) < 1e-12
+                  and np.array_equal(np.asarray(oc.recurrence_matrix()),
+                                     np.array(q_matrix(metric, sx, sy[:3], eps)))
+                  and int(np.asarray(o.vertline_dist()) @ np.arange(1, n + 1)) == int(Rx.sum()))
+            tw = o.twins(min_dist=0)
+            for j in range(0, n, 17):
+                expj = {k for k in range(n) if k != j and abs(j - k) > 0 and int(Rx[j].sum()) != 1
+                        and np.array_equal(Rx[j], Rx[k])}
+                ok = ok and set(int(v) for v in tw[j]) == expj
+            ctx.case(("large", n, metric, x.tobytes().hex(), y.tobytes().hex(), lag), True)
+            if not ok:
+                ctx.fail(dict(kind="matrix", cls="large-N", metric=metric, issue="entries-or-rates"),
+                         f"{n} state vectors: recurrence / joint / cross matrix, rates or twins differ "
+                         "from the definition", replay)
+        except Exception as ex:  # noqa
+            ctx.fail(dict(kind="construct", cls="large-N", error=type(ex).__name__),
+                     f"{n} state vectors: raised {type(ex).__name__}: {ex}", replay)
 
     # ------------------------------------------------------------------
     # 7. network strides at the model boundary (translated `A.flat[::self.N+1] = 0`)
